@@ -24,6 +24,8 @@
  *      released, the temporary buffer released once.
  * BOUNDED: depth <= 2, root with <= 3 children, at most one of them (any position) nested with <= 2 leaf children,
  * payload of a leaf <= DT_MAXP octets; tags (0..0x1fff), flags, old header forms, ownership, stale fields symbolic.
+ * The SHAPE of the tree is fixed per job (-DDT_ROOT_LEAF | -DDT_NK= children of the root, -DDT_NEST= index of the nested
+ * child (3: none), -DDT_NG= its children); the jobs of index_detach.json enumerate the shapes of the bound.
  * Plain mode (recursion and the child loops unwound, unwinding assertions on). */
 #include "env/common.h"
 #include <stdlib.h>
@@ -58,7 +60,10 @@ static unsigned char *g_old[NN]; static unsigned g_free_old[NN];
  * serializer writes right to left - is an out-of-bounds access for CBMC) or, -DDT_PLACE_END, at its END (every access
  * BEHIND the buffer is).  The two placements together give exact bounds; in each, writes into the slack on the other
  * side are detected through a witness octet of the slack. */
-#define DT_OBJ 64
+#ifndef DT_OBJ
+#define DT_LEAFMAX (4 + DT_MAXP)
+#define DT_OBJ (4 + (DT_NK) * DT_LEAFMAX + ((DT_NG) > 0 ? (DT_NG) * DT_LEAFMAX : 0) + 2)     /* >= the largest encoding of the job's shape */
+#endif
 static unsigned char *g_dt_base; static size_t g_dt_sw; static unsigned char g_dt_slack0;
 void *KSI_malloc(size_t size) {
 	g_dt_malloc_calls++; g_dt_new_size = size;
@@ -165,7 +170,7 @@ static size_t g_kw;
 } else { __CPROVER_assert(node_same(x), who ": not part of the tree, untouched"); } } while (0)
 
 void harness(void) {
-	int res, res2; size_t len2 = 0; unsigned char out2[3 * (4 + 2 * (4 + DT_MAXP)) + 4 + 8]; _Bool root_list;
+	int res, res2; size_t len2 = 0; unsigned char out2[DT_OBJ]; _Bool root_list;
 	memset(&L_root, 0, sizeof(L_root)); memset(&L_nest, 0, sizeof(L_nest));
 	L_root.length = dt_length; L_root.elementAt = dt_elementAt; L_nest.length = dt_length; L_nest.elementAt = dt_elementAt;
 	g_kw = nondet_size();
@@ -226,7 +231,7 @@ void harness(void) {
 	} else {
 		__CPROVER_assert(node_same(0) && node_same(1) && node_same(2) && node_same(3) && node_same(4) && node_same(5), "detach: failure -> every node is exactly as before");
 		__CPROVER_assert(g_free_old[0] == 0 && g_free_old[1] == 0 && g_free_old[2] == 0 && g_free_old[3] == 0 && g_free_old[4] == 0 && g_free_old[5] == 0, "detach: failure -> no buffer of the tree is released");
-		__CPROVER_assert(g_dt_free_new == 0, "detach: failure -> nothing else released (the allocation had failed)");
+		__CPROVER_assert(g_dt_free_new == (g_dt_new != NULL ? 1 : 0), "detach: failure -> the temporary buffer, if it was allocated, is released exactly once");
 	}
 
 	if (res == KSI_OK) REACH("detached");
